@@ -159,6 +159,65 @@ func (g *G) randBinShape(ids []int) *shape {
 	return &shape{k: 'J', kids: []*shape{g.randBinShape(ids[:m]), g.randBinShape(ids[m:])}}
 }
 
+// randNaryShape: the shape of a hand-made / externally grouped BVH ("a leaf, or a branch with two or more
+// children"): every branch has 2 … 5 children (sometimes all remaining objects as direct children).
+func (g *G) randNaryShape(ids []int) *shape {
+	if len(ids) == 1 {
+		return &shape{k: 'L', leaf: ids[0]}
+	}
+	k := 2 + g.Rng.Intn(4)
+	if k > len(ids) || g.p(0.1) {
+		k = len(ids)
+	}
+	isCut := map[int]bool{}
+	for _, c := range g.Rng.Perm(len(ids) - 1)[:k-1] {
+		isCut[c+1] = true
+	}
+	s := &shape{k: 'J'}
+	start := 0
+	for i := 1; i <= len(ids); i++ {
+		if i == len(ids) || isCut[i] {
+			s.kids = append(s.kids, g.randNaryShape(ids[start:i]))
+			start = i
+		}
+	}
+	return s
+}
+
+// maxWidth: the largest number of children of a branch.
+func (s *shape) maxWidth() int {
+	w := len(s.kids)
+	for _, k := range s.kids {
+		if kw := k.maxWidth(); kw > w {
+			w = kw
+		}
+	}
+	return w
+}
+
+// bvhOfShape3 / bvhOfShape2: a hand-made BVH with exactly the shape (L / J nodes only).
+func bvhOfShape3[B model3d.Bounder](s *shape, leaf func(int) B) *model3d.BVH[B] {
+	if s.k == 'L' {
+		return &model3d.BVH[B]{Leaf: leaf(s.leaf)}
+	}
+	b := &model3d.BVH[B]{}
+	for _, k := range s.kids {
+		b.Branch = append(b.Branch, bvhOfShape3(k, leaf))
+	}
+	return b
+}
+
+func bvhOfShape2[B model2d.Bounder](s *shape, leaf func(int) B) *model2d.BVH[B] {
+	if s.k == 'L' {
+		return &model2d.BVH[B]{Leaf: leaf(s.leaf)}
+	}
+	b := &model2d.BVH[B]{}
+	for _, k := range s.kids {
+		b.Branch = append(b.Branch, bvhOfShape2(k, leaf))
+	}
+	return b
+}
+
 // build3 builds exactly the hierarchy the shape describes out of the real constructors.
 func (g *G) build3(s *shape, lv []*synth3) model3d.Collider {
 	switch s.k {
@@ -211,13 +270,9 @@ func buildObj(s *shape, lv []*synthObj) render3d.Object {
 	return &render3d.FilteredObject{Object: j, Bounds: model3d.BoundsRect(j)}
 }
 
-// buildObjBVH: a hand-made BVH with the (binary) shape, for the real BVHToObject.
+// buildObjBVH: a hand-made BVH with the shape (branches of any width), for the real BVHToObject.
 func buildObjBVH(s *shape, lv []*synthObj) *model3d.BVH[render3d.Object] {
-	if s.k == 'L' {
-		return &model3d.BVH[render3d.Object]{Leaf: lv[s.leaf]}
-	}
-	return &model3d.BVH[render3d.Object]{Branch: []*model3d.BVH[render3d.Object]{
-		buildObjBVH(s.kids[0], lv), buildObjBVH(s.kids[1], lv)}}
+	return bvhOfShape3(s, func(i int) render3d.Object { return lv[i] })
 }
 
 // ---------------------------------------------------------------------------
@@ -541,9 +596,22 @@ func (g *G) synthO3() int {
 	viaBVH := g.p(0.5)
 	pan := guard(func() {
 		if viaBVH {
-			sh = g.randBinShape(seq(n))
+			// the BVH may come from anywhere: binary (what NewBVHAreaDensity builds) or hand-made
+			// with wider branches, objects in any order
+			ids := seq(n)
+			if g.p(0.5) {
+				ids = g.Rng.Perm(n)
+			}
+			if g.p(0.35) {
+				sh = g.randBinShape(ids)
+			} else {
+				sh = g.randNaryShape(ids)
+			}
 			obj = render3d.BVHToObject(buildObjBVH(sh, lv))
 			g.Stat("o3 via-BVHToObject", 1)
+			if sh.maxWidth() > 2 {
+				g.Stat("o3 via-BVHToObject branch-with-more-than-2-children", 1)
+			}
 		} else {
 			sh = g.randShape(seq(n), 0, false, true)
 			obj = buildObj(sh, lv)
